@@ -354,6 +354,10 @@ fn sched(args: &[&str]) -> String {
                     's' => { RoundingMode::set_default(mode_of(rest.parse().unwrap())); "ok".to_string() }
                     'g' => format!("{:?}", RoundingMode::default()),
                     'r' => { let d = Decimal::new_raw(rest.parse().unwrap(), 1); format!("{}", d.round(0).coefficient()) }
+                    'w' => { let d = Decimal::new_raw(rest.parse().unwrap(), 1); let y = Decimal::new_raw(100000000000000000000000000000000000001_i128, 18);
+                             format!("{}", d.mul_rounded(y, 18).coefficient()) }
+                    'v' => { let k: i128 = rest.parse().unwrap(); let x = Decimal::new_raw(k * 10_i128.pow(37), 0); let y = Decimal::new_raw(4 * 10_i128.pow(37), 0);
+                             format!("{}", x.div_rounded(y, 1).coefficient()) }
                     _ => "?".to_string(),
                 };
                 rtx.send(out).unwrap();
